@@ -194,3 +194,6 @@ func vInstant(day, sec, nsec, off int) time.Time {
 // vHourMin and vDateStr print clock times and dates the way the UI stores them.
 func vHourMin(h, m int) string     { return fmt.Sprintf("%02d:%02d", h, m) }
 func vDateStr(y, m, d int) string  { return fmt.Sprintf("%04d-%02d-%02d", y, m, d) }
+
+// vDebug prints values when the engine is tracing; a no-op natively.
+func vDebug(label string, vals ...interface{}) {}
